@@ -57,6 +57,8 @@ def cells(tier, seed):
                     out.append({'dir': direction, 'dim': 2, 'wave': w, 'mode': mode, 'J': rnd.choice([1, 1, 2]),
                                 'shape': [h, wd], 'N': 1, 'C': 1})
     rnd.shuffle(out)
+    if tier == 'thorough':
+        out.insert(0, {'suite': True, 'dir': 'suite', 'dim': 0, 'wave': 'repository tests', 'mode': '-', 'J': 0, 'shape': []})
     return out
 
 
@@ -383,7 +385,8 @@ def install_function_monitor():
                 _FN['log'].append(rec)
                 return
             worst = max(worst, float((ret[i] - want[i]).abs().max()))
-        tol = 1e-10 * scale * max(1.0, float(sum(f.abs().sum() for f in filts)) ** 2)
+        eps = float(torch.finfo(g0.dtype).eps)
+        tol = 1e5 * eps * scale * max(1.0, float(sum(f.abs().sum() for f in filts)) ** 2)
         rec['ratio'] = worst / tol
         if worst <= tol:
             rec['status'] = 'held'
@@ -478,7 +481,39 @@ def reload_history(cell, seed):
     return inverse_dir(cell2, seed, inv=mod, tag='reload-')
 
 
+def suite_cell(cell, prop, tests):
+    """the repository's own tests, every backward invocation judged by the Function-level monitor"""
+    import os, sys, json, glob, subprocess, tempfile
+    d = tempfile.mkdtemp(prefix='suite-', dir=core.private_workdir(prop))
+    env = dict(os.environ, VERIF_PLUGIN_FN='1', VERIF_PLUGIN_OUT=os.path.join(d, 'fn.json'), OMP_NUM_THREADS='2',
+               PYTHONPATH=core.repo_path() + os.pathsep + core.VERIF)
+    try:
+        subprocess.run([sys.executable, '-m', 'pytest', '-q', '-p', 'no:cacheprovider', '-p', 'vf.pytest_plugin', '-n', '4',
+                        '--timeout=1800'] + tests, cwd=core.repo_path(), env=env, stdout=subprocess.DEVNULL,
+                       stderr=subprocess.DEVNULL, timeout=2400)
+    except subprocess.TimeoutExpired:
+        return [res(INCONCLUSIVE, {'cell': cell}, 'M-FN@suite', 'repository tests under the Function monitor timed out')]
+    out, n = [], 0
+    for f in glob.glob(os.path.join(d, 'fn.json.*')):
+        for rec in json.load(open(f)).get('fn_records', []):
+            if rec.get('prop') != prop:
+                continue
+            n += 1
+            case = {'cell': cell, 'repo_test': rec.get('test'), 'fn': {k: rec.get(k) for k in ('cls', 'mode', 'shape', 'L', 'in_sizes', 'shapes')}}
+            if rec['status'] == 'held':
+                out.append(res(HELD, case, 'M-FN@suite', ratio=rec.get('ratio')))
+            elif rec['status'] == 'violated':
+                out.append(res(VIOLATED, case, 'M-FN@suite', rec['detail'], ratio=rec.get('ratio'), kf_key=rec.get('kf_key')))
+            else:
+                out.append(res(INCONCLUSIVE, case, 'M-FN@suite', rec.get('detail')))
+    if not n:
+        out.append(res(INCONCLUSIVE, {'cell': cell}, 'M-FN@suite', 'no backward invocation observed in the repository tests'))
+    return out
+
+
 def run_cell(cell, seed):
+    if cell.get('suite'):
+        return suite_cell(cell, PROP, ['tests/test_dwt.py', 'tests/test_dwt1d.py'])
     del _FN['log'][:]
     out = forward_dir(cell, seed) if cell['dir'] == 'forward' else inverse_dir(cell, seed)
     if cell['mode'] in ('zero', 'periodization') and not any(n % 2 for n in cell['shape']):
